@@ -623,6 +623,102 @@ pub fn random(o: &Opts) -> R<()> {
 /// `determinism`: the whole pipeline N times on the same bytes (fresh hash seeds every time).
 /// A straight-line program of `let v = source; sink(part(v)); ...` statements over constant slots,
 /// elements of mappings (one or two words) and elements of a dynamic array.
+/// Packed words written more than once with the same field split - some fields the very same value both times
+/// (DUP), others different values with different evidence (a sum, an address, a flag, raw bytes) - and packed words
+/// whose spans look like the header of a string slot ((0,1) (1,7) / (8,248)) next to array evidence for the same slot,
+/// with the fields also stored on their own elsewhere.  Which side of such a combination is "left" must not matter.
+fn packed_rewrite_program(rng: &mut StdRng) -> Vec<u8> {
+    let mut c: Vec<u8> = Vec::new();
+    let push = |c: &mut Vec<u8>, bytes: &[u8]| {
+        c.push(0x5f + bytes.len() as u8);
+        c.extend(bytes);
+    };
+    // a value with some evidence attached, left on the stack
+    let source = |c: &mut Vec<u8>, rng: &mut StdRng, arg: u8| {
+        c.extend([0x60, 4 + 32 * arg, 0x35]);
+        match rng.gen_range(0..6) {
+            0 => c.extend([0x60, 0x01, 0x01]),             // + 1: a number
+            1 => c.extend([0x80, 0x31, 0x50]),             // balance(x): an address
+            2 => c.extend([0x15, 0x15]),                   // iszero(iszero(x)): a flag
+            3 => c.extend([0x60, 0x03, 0x05]),             // sdiv 3... signed
+            4 => c.extend([0x60, 0x00, 0x1a]),             // byte(0, x): a byte
+            _ => {}
+        }
+    };
+    if rng.gen_bool(0.6) {
+        // the same split written twice (or three times)
+        let splits: [&[(usize, usize)]; 4] = [&[(0, 128), (128, 128)], &[(0, 64), (64, 64), (128, 128)], &[(0, 160), (160, 96)], &[(0, 8), (8, 8), (16, 240)]];
+        let split = splits[rng.gen_range(0..splits.len())];
+        let slot = rng.gen_range(0..3u8);
+        // shared fields: computed once, kept at the bottom of the stack
+        let shared: Vec<bool> = split.iter().map(|_| rng.gen_bool(0.5)).collect();
+        let nshared = shared.iter().filter(|b| **b).count();
+        let mut k = 0u8;
+        for (i, (_, w)) in split.iter().enumerate() {
+            if shared[i] {
+                source(&mut c, rng, k);
+                push(&mut c, &vec![0xff; w / 8]);
+                c.push(0x16);
+                k += 1;
+            }
+        }
+        for _round in 0..rng.gen_range(2..4) {
+            let mut first = true;
+            let mut seen_shared = 0usize;
+            for (i, (off, w)) in split.iter().enumerate() {
+                if shared[i] {
+                    // DUP the shared value: it sits below `extra` items
+                    let extra = usize::from(!first);
+                    c.push(0x80 + (nshared - 1 - seen_shared + extra) as u8);
+                    seen_shared += 1;
+                } else {
+                    source(&mut c, rng, k);
+                    k = (k + 1) % 6;
+                    push(&mut c, &vec![0xff; w / 8]);
+                    c.push(0x16);
+                }
+                if *off > 0 {
+                    let mut p2 = vec![0u8; off / 8 + 1];
+                    p2[0] = 1;
+                    push(&mut c, &p2);
+                    c.push(0x02);
+                }
+                if !first {
+                    c.push(0x17);
+                }
+                first = false;
+            }
+            c.extend([0x60, slot, 0x55]);
+        }
+    } else {
+        // string-header spans plus array evidence for the same slot
+        let slot = rng.gen_range(0..3u8);
+        // store to keccak(slot) + i
+        c.extend([0x60, 0x2a, 0x60, slot, 0x60, 0x00, 0x52, 0x60, 0x20, 0x60, 0x00, 0x20, 0x60, 0x04, 0x35, 0x01, 0x55]);
+        let (m1, m2): (&[u8], Vec<u8>) = match rng.gen_range(0..3) {
+            0 => (&[0x01], vec![0xfe]),
+            1 => (&[0x01], [vec![0xff; 31], vec![0x00]].concat()),
+            _ => (&[0xfe], [vec![0xff; 31], vec![0x00]].concat()),
+        };
+        // y first (kept, and also stored on its own), then x
+        c.extend([0x60, 0x24, 0x35]);
+        push(&mut c, &m2);
+        c.push(0x16);
+        if rng.gen_bool(0.7) {
+            c.extend([0x80, 0x60, 0x07, 0x55]);
+        }
+        c.extend([0x60, 0x44, 0x35]);
+        push(&mut c, m1);
+        c.push(0x16);
+        if rng.gen_bool(0.3) {
+            c.extend([0x80, 0x60, 0x08, 0x55]);
+        }
+        c.extend([0x17, 0x60, slot, 0x55]);
+    }
+    c.push(0x00);
+    c
+}
+
 fn dataflow_program(rng: &mut StdRng) -> Vec<u8> {
     fn key(rng: &mut StdRng, c: &mut Vec<u8>) {
         match rng.gen_range(0..10) {
@@ -741,6 +837,9 @@ pub fn determinism(o: &Opts) -> R<()> {
     // values flowing between slots, mapping elements, struct words and array elements, whole and in parts
     for _ in 0..nprog {
         progs.push(("dataflow".into(), dataflow_program(&mut rng), runs * 2));
+    }
+    for _ in 0..nprog {
+        progs.push(("packed-rewrite".into(), packed_rewrite_program(&mut rng), runs * 3));
     }
     for _ in 0..nprog {
         let p = if rng.gen_bool(0.6) { crate::idioms::random_contract(&mut rng).1 } else { progen::any(&mut rng).code };
